@@ -83,7 +83,7 @@ func typeClass(t *Type) string {
 	switch t.K {
 	case Ptr:
 		return typeClass(t.Elem)
-	case Slice, Map, Struct:
+	case Slice, Map, Struct, Any:
 		return t.K.String()
 	}
 	return t.K.Class()
@@ -550,6 +550,26 @@ func auditValue(t *Type, rv reflect.Value, dv any, container string, p string, o
 		}
 		return auditStruct(t, rv, mm, p, o)
 	}
+	if t.K == Any {
+		want := dv
+		if o.Canon != nil {
+			var ok bool
+			if want, ok = canonKeys(dv, o.Canon); !ok {
+				return nil // data keys collapsing under the loader's canonicalisation: not asserted
+			}
+		}
+		if rv.IsNil() || !freeEqual(rv.Interface(), want) {
+			got := "nil"
+			if !rv.IsNil() {
+				got = fmt.Sprintf("%#v", rv.Interface())
+			}
+			if len(got) > 300 {
+				got = got[:300] + "…"
+			}
+			return finding("inexact:any<-"+DocClass(dv), "%s: document value %s arrived in the interface field as %s", p, short(dv), got)
+		}
+		return nil
+	}
 	// leaf
 	src := container
 	switch x := dv.(type) {
@@ -700,4 +720,77 @@ func auditLeaf(k Kind, rv reflect.Value, text, src, p string) *Finding {
 		return finding("inexact:float<-"+src, "%s: %s stored as %v in float32 (nearest %v)", p, text, got, c1)
 	}
 	return nil
+}
+
+// canonKeys rewrites the object keys of a free-form value the way a key-canonicalising loader does.
+func canonKeys(v any, canon func(string) string) (any, bool) {
+	switch x := v.(type) {
+	case map[string]any:
+		m := make(map[string]any, len(x))
+		for k, c := range x {
+			ck := canon(k)
+			if _, dup := m[ck]; dup {
+				return nil, false
+			}
+			cv, ok := canonKeys(c, canon)
+			if !ok {
+				return nil, false
+			}
+			m[ck] = cv
+		}
+		return m, true
+	case []any:
+		if len(x) == 0 {
+			return x, true
+		}
+		a := make([]any, len(x))
+		for i, c := range x {
+			cv, ok := canonKeys(c, canon)
+			if !ok {
+				return nil, false
+			}
+			a[i] = cv
+		}
+		return a, true
+	}
+	return v, true
+}
+
+// freeEqual compares free-form values exactly, except that an empty array equals a nil one.
+func freeEqual(a, b any) bool {
+	switch x := a.(type) {
+	case map[string]any:
+		y, ok := b.(map[string]any)
+		if !ok || len(x) != len(y) {
+			return false
+		}
+		for k, c := range x {
+			d, ok := y[k]
+			if !ok || !freeEqual(c, d) {
+				return false
+			}
+		}
+		return true
+	case []any:
+		y, ok := b.([]any)
+		if !ok || len(x) != len(y) {
+			return false
+		}
+		for i := range x {
+			if !freeEqual(x[i], y[i]) {
+				return false
+			}
+		}
+		return true
+	}
+	if x, ok := a.(json.Number); ok {
+		// a number may come back in another spelling of the same value (a YAML reader re-prints it)
+		if y, ok := b.(json.Number); ok {
+			rx, ok1 := parseRat(string(x))
+			ry, ok2 := parseRat(string(y))
+			return (ok1 && ok2 && rx.Cmp(ry) == 0) || x == y
+		}
+		return false
+	}
+	return reflect.DeepEqual(a, b)
 }
